@@ -9,6 +9,7 @@ code -> spec : the driver runs every operation on A and on A + inert rows (arbit
 from __future__ import annotations
 
 import math
+import os
 
 import numpy as np
 import pandas as pd
@@ -129,6 +130,12 @@ def run(tier: str, seed: int) -> int:
         meta.append(info)
 
     rounds = 3 if quick else 40
+    import shutil
+    import tempfile
+    from spatialpandas.io import read_parquet_dask
+    tmpdir = tempfile.mkdtemp(prefix="c17-", dir=os.environ.get("TMPDIR") or "/var/tmp")
+    import atexit
+    atexit.register(shutil.rmtree, tmpdir, ignore_errors=True)
     with dask.config.set(scheduler="synchronous"):
         for rd in range(rounds):
             for kind in geom.KINDS:
@@ -223,6 +230,38 @@ def run(tier: str, seed: int) -> int:
                         ba = [tok(tuple(fl(v) for v in r)) for r in da.geometry.bounds.compute().values]
                         bx = [tok(tuple(fl(v) for v in r)) for r in dx.geometry.bounds.compute().values]
                         add("dask bounds", "row", ba, bx, J, info, inert=nanrow, fixed=1)
+                        # the same frame with a WHOLE partition of inert rows in the middle, stored and re-read (the recorded partition
+                        # bounds of that partition are NaN): selections and extents of the other rows are unchanged
+                        if rd % 6 == 0 and J:
+                            import dask as _dask
+                            inert_rows = sp.GeoDataFrame({"id": [1000 + j for j in range(len(J))], "geometry": X.take(np.array([j - 1 for j in J]))})
+                            h_ = max(1, n // 2)
+                            pieces = [fa.iloc[:h_], inert_rows, fa.iloc[h_:]] if n - h_ else [fa.iloc[:h_], inert_rows]
+                            d3 = dd.from_delayed([_dask.delayed(p_) for p_ in pieces], meta=fa.iloc[:0])
+                            pth = os.path.join(tmpdir, f"inert{len(recs)}.parq")
+                            d3.to_parquet(pth)
+                            back = read_parquet_dask(pth)
+                            chk.count()
+                            tb_a = [tok(fl(v)) for v in da.geometry.total_bounds]
+                            tb_b = [tok(fl(v)) for v in back.geometry.total_bounds]
+                            if tb_a != tb_b:
+                                chk.violation(f"parquet-inert|total_bounds|{kind}", f"{kind}: a Dask frame with an all-inert middle partition, stored and re-read: total_bounds {tb_b}, "
+                                              f"without the inert rows {tb_a}", "", ctx=dict(site="total_bounds", kind=kind, flavour=info["flavour"], dask=True, parquet=True))
+                            for b in boxes[:3]:
+                                ra = [int(v) for v in da.cx[b[0]:b[2], b[1]:b[3]].compute()["id"]]
+                                try:
+                                    rb_ = [int(v) for v in back.cx[b[0]:b[2], b[1]:b[3]].compute()["id"]]
+                                    rc_ = [int(v) for v in read_parquet_dask(pth, bounds=(b[0], b[1], b[2], b[3])).cx[b[0]:b[2], b[1]:b[3]].compute()["id"]]
+                                except Exception as ex:  # noqa: BLE001
+                                    chk.violation(f"parquet-inert|raises|{kind}", f"{kind}: a Dask frame with an all-inert middle partition, stored and re-read: cx{b} / "
+                                                  f"read_parquet_dask(bounds=) raises {type(ex).__name__}: {ex}", "",
+                                                  ctx=dict(site="cx", kind=kind, flavour=info["flavour"], dask=True, parquet=True, mode="raises"))
+                                    break
+                                if ra != rb_ or ra != rc_:
+                                    chk.violation(f"parquet-inert|cx|{kind}", f"{kind}: a Dask frame with an all-inert middle partition, stored and re-read: cx{b} selects {rb_} "
+                                                  f"(with bounds= pruning {rc_}), without the inert rows {ra}; elements {[geom.to_py(kind, e) for e in base]}", "",
+                                                  ctx=dict(site="cx", kind=kind, flavour=info["flavour"], dask=True, parquet=True))
+                                    break
     verdicts, tres = validate_trace("Trace_Inert", recs, timeout=3000)
     chk.add_tlc(tres)
     chk.traces += len(recs)
